@@ -22,8 +22,15 @@ import (
 
 func init() { Register("C19", checkC19) }
 
-var c19Excluded = map[string]string{
-	"applayer/fragmentation.matrixLine/loop r | r >= m": "termination of the PRBS retry loop is a numerical property of the generator (declined in DESIGN §3 C19)",
+// c19ExcludedLoop: the PRBS retry loop (the loop that draws from prbs23 until the value falls below the column count),
+// wherever it lives: its termination is a numerical property of the generator (declined in DESIGN §3 C19).
+func c19ExcludedLoop(lp guards.LoopRes) string {
+	for _, n := range lp.Calls {
+		if n == "prbs23" {
+			return "termination of the PRBS retry loop is a numerical property of the generator (declined in DESIGN §3 C19)"
+		}
+	}
+	return ""
 }
 
 func checkC19(c *Ctx) {
@@ -33,6 +40,10 @@ func checkC19(c *Ctx) {
 	r.Rule("R1.progress", "loops of the encoder advance towards an invariant bound")
 	r.Rule("R2.prefix", "the result starts with the rows data[i*fs:(i+1)*fs] appended in order and never written afterwards")
 	r.Rule("R3.count", "every successful return carries at least len(data)/fragmentSize + redundancy rows")
+	// R2/R3 recognise one way of writing the row loop; where the bit-level rule R6 decided the whole encoder on its grid,
+	// an unrecognised shape carries no information (their refutations still count)
+	r.Advisory("R2.prefix", "R6.parity")
+	r.Advisory("R3.count", "R6.parity")
 	r.Rule("R4.rows", "the row index selected by matrixLine is not provably >= 1 (or >= mm) nor provably <= m-2: every row stays selectable")
 	r.Explanation = "E3 obligations over fragmentation.Encode and callees; R2/R3 are def-use and linear-fact arguments on the SSA of Encode; the pure helpers isPower2 and prbs23 are decided for all inputs by the bit-level engine (R5); for a grid of fragment counts and sizes the whole encoder is interpreted on symbolic data and compared with an independent transcription of the parity matrix (R6); the encoder keeps no state (R7); recoverability (rank of the matrix) is declined"
 	guardsSelfTest(c, "R9.selftest")
@@ -49,7 +60,7 @@ func checkC19(c *Ctx) {
 		}
 		return "R1.guarded"
 	}
-	runGuards(c, []*ssa.Function{enc}, guardsOpts{rule: rule, loopRule: "R1.progress", excluded: c19Excluded, rootsCat: "encoder roots"})
+	runGuards(c, []*ssa.Function{enc}, guardsOpts{rule: rule, loopRule: "R1.progress", excludedLoop: c19ExcludedLoop, rootsCat: "encoder roots"})
 	E := guardsEngine(P)
 	a := E.AnalyzeCtx(enc)
 	if a == nil || !a.Converged {
